@@ -292,7 +292,12 @@ impl Fill for ParContext {
         Ok(())
     }
 
-    fn fill_le_bytes(&mut self, bytes: &[u8], _bytes_per_sample: usize) -> Result<(), SourceError> {
+    fn fill_le_bytes(&mut self, bytes: &[u8], bytes_per_sample: usize) -> Result<(), SourceError> {
+        if bytes_per_sample != self.bytes_per_sample || bytes.len() % bytes_per_sample != 0 {
+            return Err(SourceError::by_reason(
+                super::error::SourceErrorReason::InvalidFormat,
+            ));
+        }
         self.bytebuf.clear();
         self.bytebuf.extend_from_slice(bytes);
         self.enqueue_buffer();
